@@ -33,6 +33,7 @@ import Driver.Small3
 import Driver.Gsm
 import Driver.GeomFix
 import Driver.FdWorld
+import Driver.Alac
 open Sf
 
 def lawOf (s : String) : Option G711.Law :=
@@ -111,4 +112,5 @@ def main (args : List String) : IO UInt32 := do
   | "gsm" :: rest => Driver.Gsm.cmd rest
   | "geomfix" :: rest => Driver.GeomFix.cmd rest
   | "fdworld" :: _ => FdWorldDriver.cmd
+  | "alac" :: rest => Driver.Alac.cmd rest
   | _ => IO.eprintln "usage: sfmodel <g711|...> ..."; return 2
